@@ -19,6 +19,7 @@ import (
 	"fmt"
 	"sort"
 	"strings"
+	"time"
 
 	"github.com/open2b/scriggo/ast"
 	"github.com/open2b/scriggo/ast/astutil"
@@ -91,7 +92,9 @@ func (prop) Drive(d *core.Driver) error {
 		d.T.Sample(srcs[nCorpus])
 		d.T.Sample(srcs[nCorpus+2])
 	}
-	res := d.Run(cases, core.RunOpts{})
+	// the largest corpus files have 80 000 nodes: give a case ten minutes of wall
+	// clock before the watchdog (whose firing is only ever inconclusive)
+	res := d.Run(cases, core.RunOpts{CaseWall: 10 * time.Minute})
 	// node-type coverage
 	seen := map[string]bool{}
 	for _, r := range res {
@@ -238,7 +241,7 @@ func (w *worker) tree(src astgen.Source, p astgen.Parsed) {
 
 	// --- clone, node by node (bottom-up attribution)
 	status := make([]byte, len(nodes)) // 0 ok, 1 bad
-	const workBudget = 1500000
+	const workBudget = 600000
 	work := 0
 	for i := len(nodes) - 1; i >= 0; i-- {
 		n := nodes[i].Node
